@@ -103,6 +103,10 @@ def gen_numbers(rng, quick):
         c = bits_of(rn(Fraction(10) ** k))
         for j in ((-2, -1, 0, 1, 2) if not quick else (-1, 0, 1)):
             add(nextb(c, j), 'pow10')
+    # every decimal exponent from -25 to +25 with random mantissas (exponent notation below 1e-4 and from 1e17 on: one-, two-digit exponents, both signs)
+    for k in range(-25, 26):
+        for _ in range(2 if quick else 8):
+            add(rn(Fraction(rng.randint(10 ** 15, 10 ** 16 - 1), 10 ** 15) * Fraction(10) ** k), 'exponent')
     # halves at every decimal position: (2j+1) * 5 * 10^(-p-1) at several magnitudes (exact ties where representable)
     for p in range(0, 21):
         for _ in range(3 if quick else 12):
@@ -239,7 +243,21 @@ def sig_digits(s):
     return len((m.group(1) + m.group(2)).lstrip('0'))
 
 
-def check_number(ctx, d_bits, text, reread_hex, trimmed, what):
+def allowed_sig_digits(d, text, prec):
+    """how many significant digits the requested precision lets the trimmed writer emit for the value d (a non-zero Fraction)"""
+    if 'e' in text:
+        return prec + 1                      # d.ddd...e+X : one digit before the point
+    a = abs(d)
+    if a >= 1:
+        n = len(str(int(a)))                 # integer digits
+        return n + prec
+    z = 0                                    # zeros between the point and the first significant digit
+    while a * 10 < 1:
+        a *= 10; z += 1
+    return prec - z
+
+
+def check_number(ctx, d_bits, text, reread_hex, trimmed, what, prec=None):
     """decide the property clauses for one emitted number. returns None if fine, else (key, message)"""
     if reread_hex == 'REJECT':
         return ('rejected', '%s: emitted number %r is not accepted by the WKT reader' % (what, text))
@@ -268,6 +286,8 @@ def check_number(ctx, d_bits, text, reread_hex, trimmed, what):
         return ('bound', '%s: |reread - d| = %s exceeds half a unit of the last emitted digit (%s) + 1 ulp; text %r' % (what, float(abs(r - d)), float(unit), text))
     if sig_digits(text) >= 17 and r != d:
         return ('exact17', '%s: %r carries >= 17 significant digits but re-reads as %s, not %s' % (what, text, reread_hex, hx(d_bits)))
+    if trimmed and prec is not None and d != 0 and r != d and allowed_sig_digits(d, text, prec) >= 17:
+        return ('exact17', '%s: the requested precision allows 17 significant digits, but %r re-reads as %s, not %s' % (what, text, reread_hex, hx(d_bits)))
     if trimmed and text.startswith('-') and v == 0:
         return ('minus-zero', '%s: trimmed writer printed %r' % (what, text))
     return None
@@ -669,6 +689,13 @@ def run(ctx):
         big = ((b >> 52) & 0x7ff) > 1023 + 90          # untrimmed text of huge values is hundreds of digits: fewer precisions
         up = '0,2,-1' if big else '0,1,2,3,5,8,15,16,17,20,-1'
         nlines.append('N %s %s %s' % (hx(b), P, up))
+    # every power of two 2^-1074 .. 2^1023 (the doubles whose lower neighbour is at half the distance, plus the subnormal ones) at precisions that keep all digits
+    for k in range(-1074, 1024):
+        b = (1 << (k + 1074)) if k < -1022 else ((k + 1023) << 52)
+        if rng.random() < 0.3:
+            b |= 1 << 63
+        nums.append((b, 'power-of-two')); dist['numbers']['power-of-two'] = dist['numbers'].get('power-of-two', 0) + 1
+        nlines.append('N %s %s %s' % (hx(b), '17,20' if quick else '0,5,16,17,20,-1', '-'))
     numerals = gen_numerals(rng, quick)
     slines = ['S ' + s for s, _ in numerals]
     for _, cls in numerals:
@@ -782,7 +809,8 @@ def run(ctx):
                 if k == 'T20':
                     key = 'special' if not NUM_RE.match(s) else 'exp' if 'e' in s else 'fixed'
                     dist['notation'][key] += 1
-            bad = check_number(ctx, b, s, rb, trimmed, '%s precision %s' % ('trimmed' if trimmed else 'untrimmed', k[1:]))
+            pk = int(k[1:]); pk = 16 if pk < 0 else pk
+            bad = check_number(ctx, b, s, rb, trimmed, '%s precision %s' % ('trimmed' if trimmed else 'untrimmed', k[1:]), prec=pk)
             if bad:
                 rep = dict(case=line, double=hx(b), value=repr(dbl_of(b)), field=k, written=s, reread=rb, why=bad[1], replay='echo "%s" | %s' % (line, hexe))
                 fid = 'C10-E' if bad[0] == 'overflow-on-reread' else None
@@ -977,7 +1005,7 @@ def check_wkt(ctx, j, line, c, t, gi, gm, replay, dist, disagree, hexe):
     rords = [int(o, 16) for l in t_leaves(rt) for cs in l[2] for o in cs]
     if len(texts) == len(kept) == len(rords):
         for (ob, s, rb) in zip(kept, texts, rords):
-            bad = check_number(ctx, ob, s, hx(rb), bool(trim), 'ordinate')
+            bad = check_number(ctx, ob, s, hx(rb), bool(trim), 'ordinate', prec=(16 if prec < 0 else prec))
             if bad:
                 fid = 'C10-E' if bad[0] == 'overflow-on-reread' else None
                 if report(ctx, fid, 'wkt_ord_%s_%d' % (bad[0], j), dict(case=line, ordinate=hx(ob), written=s, reread=hx(rb), why=bad[1], replay=replay), bad[1]):
